@@ -53,6 +53,7 @@ const (
 	kDebugUnused  = "debug-unused-func-range"
 	kNilBytes     = "nil-bytes-conversion"
 	kAppendArgs   = "append-args-see-appended"
+	kNestedRecov  = "recover-in-nested-deferred-call"
 )
 
 type vinfo struct {
@@ -79,25 +80,26 @@ type vinfo struct {
 }
 
 type fsig struct {
-	name      string
-	recv      string // "" | "T0" | "*T0"
-	params    []Field
-	results   []string
-	pure      bool // no writes to globals or through arguments, no defers, no impure calls
-	readsG    bool
-	safe      bool // can not panic
-	soft      bool // may raise an exception the VM can catch (explicit panic, index out of range)
-	dirty     bool // ... and may do so while it has items on the evaluation stack (mid-expression, in a range loop or switch)
-	hard      bool // may raise a fault the VM can not catch (division by zero, shift, slicing)
-	cost      int
-	fuel      bool // first parameter is a recursion fuel in [0,5]
-	mutRecv   bool
-	exported  bool
-	writesG   bool
-	recovers  bool
-	idx       int
-	resAscii  bool
-	resMinLen int
+	name       string
+	recv       string // "" | "T0" | "*T0"
+	params     []Field
+	results    []string
+	pure       bool // no writes to globals or through arguments, no defers, no impure calls
+	readsG     bool
+	safe       bool // can not panic
+	soft       bool // may raise an exception the VM can catch (explicit panic, index out of range)
+	mayRecover bool // executes recover() itself (in a deferred literal) or calls a function that does
+	dirty      bool // ... and may do so while it has items on the evaluation stack (mid-expression, in a range loop or switch)
+	hard       bool // may raise a fault the VM can not catch (division by zero, shift, slicing)
+	cost       int
+	fuel       bool // first parameter is a recursion fuel in [0,5]
+	mutRecv    bool
+	exported   bool
+	writesG    bool
+	recovers   bool
+	idx        int
+	resAscii   bool
+	resMinLen  int
 }
 
 type loopctx struct {
@@ -864,6 +866,14 @@ func (g *gen) callOK(f *fsig, exprCtx bool) bool {
 	if f.soft && g.f.noSoftExpr && (exprCtx || g.f.stackItems > 0 || f.dirty) {
 		return false
 	}
+	if g.f.inLambda && f.mayRecover {
+		// a function reached from a deferred call that recovers on its own: recover() there must not see (Go) the
+		// panic of the outer frame, but the compiled code keeps one pending exception for all frames
+		if !g.on(kNestedRecov) {
+			return false
+		}
+		g.mark("nested-recover-call")
+	}
 	if g.f.protected && f.hard {
 		return false
 	}
@@ -919,6 +929,9 @@ func (g *gen) noteCall(f *fsig) {
 	}
 	if f.hard {
 		g.f.sig.hard = true
+	}
+	if f.mayRecover {
+		g.f.sig.mayRecover = true
 	}
 	if f.soft {
 		g.f.sig.soft = true
